@@ -121,15 +121,18 @@ def delayed_load(all_props, loader, element=True, isotope=False, ion=False):
         In this case, we simply need to clear the delayed load property and
         let the loader set the values as usual.
 
-        If the user tries to override a value in the table before first
-        referencing the table, then the above assumption is false. E.g.,
-        "Ni.K_alpha=5" followed by "print Cu.K_alpha" will yield an
-        undefined Cu.K_alpha. This will be difficult for future users
-        to debug.
+        The attribute may also be assigned before the table is referenced
+        for some other reason: the user overrides a value (e.g.,
+        "Ni.K_alpha=5" followed by "print Cu.K_alpha"), or a private table
+        is initialized while the public table is still waiting to be loaded.
+        The delayed load property is shared by all tables, so the public data
+        is loaded before the property is discarded, otherwise it would never
+        be loaded. If the loader is already running it returns immediately.
         """
         def setfn(el, value):
             #print "set", el, propname, value
             clearprops()
+            loader()
             setattr(el, propname, value)
         return setfn
 
